@@ -355,7 +355,7 @@ func runC09(ctx *core.Ctx) {
 		if cb == nil {
 			ctx.Bad("W7", shortFn(runner)+"#dequeue", runner.Pos(), "runner never calls the user function")
 		} else {
-			arg := cb.Call.Args[0]
+			arg := g.Resolve(cb.Call.Args[0], cb)
 			ld, ok := arg.(*ssa.UnOp)
 			fromTodo := false
 			var ia *ssa.IndexAddr
@@ -402,27 +402,61 @@ func runC09(ctx *core.Ctx) {
 			}
 		}
 		ctx.Check(runOK, "W8", "par.Work.Do#running", posOfVal(nil, do), "running is set to n")
-		// loop bound n-1: the branch controlling the go block compares a counter (from 0, +1) with n-1
+		// loop bound: the go statement sits in a counted loop that runs exactly n-1 times
+		// (counter from 0 below n-1, from 1 below n, ...), with no other exit
 		boundOK := false
-		blk := goI.Block()
-		for _, pr := range blk.Preds {
-			ifi, ok := pr.Instrs[len(pr.Instrs)-1].(*ssa.If)
-			if !ok {
-				continue
+		why := ""
+		loopConds := map[ssa.Value]bool{}
+		var bound ssa.Value
+		if l, inLoop := innermostLoop(g, goI.Block().Index); !inLoop {
+			why = "the goroutines are not started in a loop"
+		} else {
+			var iters struct {
+				init  int64
+				e     int64
+				rot   bool
+				found bool
 			}
-			b, ok := ifi.Cond.(*ssa.BinOp)
-			if !ok || b.Op != token.LSS {
-				boundOK = false
-				break
+			for _, ex := range loopExits(g, l) {
+				ce, ok := exitIsCounted(g, l, ex[0], ex[1])
+				if !ok {
+					why = "the start loop has an exit that does not depend on its counter"
+					break
+				}
+				a, isK := ssax.ConstInt(ce.Init)
+				if !isK {
+					why = "the counter does not start at a constant"
+					break
+				}
+				blkIf := g.Fn.Blocks[ce.Block]
+				loopConds[stripNotV(blkIf.Instrs[len(blkIf.Instrs)-1].(*ssa.If).Cond)] = true
+				bound = ce.Bound
+				iters.init, iters.e, iters.found = a, ce.E, true
+				iters.rot = !(g.DomBlock(ce.Block, goI.Block().Index) && ce.Block != goI.Block().Index)
 			}
-			lim, ok := b.Y.(*ssa.BinOp)
-			if !ok || lim.Op != token.SUB || lim.X != ssa.Value(n) || !isConstIntV(1)(lim.Y) {
-				boundOK = false
-				break
+			if why == "" && iters.found {
+				// number of iterations = bound - init - e (test first) or bound - init (test after the body, e == 1)
+				off := iters.init + iters.e
+				if iters.rot {
+					off = iters.init
+				}
+				// bound - off must equal n - 1
+				switch bv := bound.(type) {
+				case *ssa.BinOp:
+					if k, isK := ssax.ConstInt(bv.Y); bv.Op == token.SUB && bv.X == ssa.Value(n) && isK {
+						boundOK = -k-off == -1
+					}
+				default:
+					if bound == ssa.Value(n) {
+						boundOK = -off == -1
+					}
+				}
+				if !boundOK {
+					why = "the loop does not run n-1 times"
+				}
 			}
-			boundOK = true
 		}
-		ctx.Check(boundOK, "W8", "par.Work.Do#bound", goI.Pos(), "goroutines are started while counter < n-1 (so n-1 of them plus the caller make n)")
+		ctx.Check(boundOK, "W8", "par.Work.Do#bound", goI.Pos(), "exactly n-1 goroutines are started (a counted loop over n-1 values with no other exit), so that with the caller n runners exist %s", why)
 		// unconditional: no branch fact between the running store and the loop other than the loop test
 		uncond := runStore != nil
 		if runStore != nil {
@@ -431,11 +465,12 @@ func runC09(ctx *core.Ctx) {
 				base[fc.Cond] = true
 			}
 			for _, fc := range g.FactsAtInstr(goI) {
-				if base[fc.Cond] {
+				if base[fc.Cond] || loopConds[fc.Cond] {
 					continue
 				}
-				if b, ok := fc.Cond.(*ssa.BinOp); ok && b.Op == token.LSS {
-					if lim, ok := b.Y.(*ssa.BinOp); ok && lim.X == ssa.Value(n) {
+				// the entry guard of a rotated loop: <constant> < bound
+				if b, ok := fc.Cond.(*ssa.BinOp); ok && b.Op == token.LSS && b.Y == bound {
+					if _, isK := ssax.ConstInt(b.X); isK {
 						continue
 					}
 				}
